@@ -195,6 +195,24 @@ def body(prop, args, seed, t0):
                 return 2
     # --- T3 end
 
+    # --- T5: the METHOD translator (harness/translate_state.py): the translated runner classes of C14 are run against the real
+    # classes on seeded call histories (harness/runners_check.py); a disagreement is a fault of the machinery
+    if prop == "C14" and driver.available():
+        from harness import runners_check
+        n3, bad3, untr3, note3 = runners_check.run(seed)
+        tie = dict(tie, translated_runner_classes_vs_python=n3, untranslatable_methods_now=untr3,
+                   translated_classes=["api.circuit_runner.BaseCircuitRunner -> Runners.Base.*",
+                                       "runners.trackers.MeasurementTrackingBackend -> Runners.Tracker.*",
+                                       "api.wavefunction_simulator.BaseWavefunctionSimulator -> Runners.Sim.*"])
+        if note3:
+            tie["translated_runner_classes_note"] = note3
+        if bad3:
+            for b in bad3[:10]:
+                print("  method-translator disagreement:", b)
+            print(f"INTERNAL-ERROR property={prop} (the Python->Lean translation of the runner classes misrenders the code; no verdict)")
+            return 2
+    # --- T5 end
+
     # ---- 3. correspondence + oracle
     if args.replay:
         rp = json.load(open(args.replay))
